@@ -551,7 +551,7 @@ pub fn run(tier: Tier) -> i32 {
         for depth in 1..=12 {
             check_input(&ctx, &tower(kind, depth).unwrap(), &counters);
         }
-        for (depth, limit) in [(30usize, 10u64), (100_000, 20)] {
+        for (depth, limit) in [(30usize, 5u64), (100_000, 20)] {
             tower_probes += 1;
             match probe_subprocess(kind, depth, limit) {
                 Ok(()) => {}
